@@ -93,19 +93,41 @@ def check(axioms, pc, goal, want_model=True, timeout_ms=None):
         return "discharged", None, dt, "z3-%s" % z3.get_version_string()
     if r == z3.sat:
         return "refuted", (s.model() if want_model else None), dt, "z3-%s" % z3.get_version_string()
-    # unknown: retry with other engines on a portable dump
+    # unknown: optionally retry with other engines on a portable dump (off by default: the dump of large
+    # lambda-heavy formulas is expensive and cvc5/z3-4.8 rarely decide what z3 5.x left open)
     reason = s.reason_unknown()
-    fmls = list(axioms) + list(pc) + [z3.Not(goal)]
-    v, be = cli_check(fmls)
-    dt = time.time() - t0
-    if v == "unsat":
-        return "discharged", None, dt, be
-    if v == "sat":
-        return "refuted", None, dt, be
-    return "unknown", reason, dt, "z3+cli"
+    if os.environ.get("PYVC_CLI_FALLBACK"):
+        fmls = list(axioms) + list(pc) + [z3.Not(goal)]
+        v, be = cli_check(fmls)
+        dt = time.time() - t0
+        if v == "unsat":
+            return "discharged", None, dt, be
+        if v == "sat":
+            return "refuted", None, dt, be
+    return "unknown", reason, time.time() - t0, "z3-%s" % z3.get_version_string()
+
+
+def term_size(fmls, limit):
+    seen = set()
+    stack = list(fmls)
+    while stack:
+        t = stack.pop()
+        i = t.get_id()
+        if i in seen:
+            continue
+        seen.add(i)
+        if len(seen) > limit:
+            return len(seen)
+        if z3.is_quantifier(t):
+            stack.append(t.body())
+        else:
+            stack.extend(t.children())
+    return len(seen)
 
 
 def cli_check(fmls, solvers=("cvc5", "z3old")):
+    if term_size(fmls, 30000) > 30000:
+        return "unknown", "too-large-for-portable-dump"
     try:
         port = delambda(fmls)
         txt = to_smt2(port)
